@@ -212,6 +212,17 @@ def case_arith(c):
                         or pd['tchans'] != k:
                     V('params_from_backend', 'params_from_backend=%r; exact df=%r dt=%r tchans=%d'
                       % (pd, float(df_x), float(dt_x), k), site='frame.params_from_backend')
+                # the Frame classmethod must agree with the stand-alone function and the backend
+                import io as _io, contextlib as _cl
+                with _cl.redirect_stdout(_io.StringIO()):
+                    frm = stg.Frame.from_backend_params(fchans=4, obs_length=obs, sample_rate=rate, num_branches=P,
+                                                        fftlength=N, int_factor=I, fch1=6e9 if 6e9 / float(df_x) <= 2.0**36 else 1e3)
+                if frm.df != pd['df'] or frm.dt != pd['dt'] or frm.tchans != pd['tchans']:
+                    V('frame_from_backend_params', 'Frame.from_backend_params -> df=%r dt=%r tchans=%r; params_from_backend -> %r '
+                      '(num_branches=%d)' % (frm.df, frm.dt, frm.tchans, pd, P), site='Frame.from_backend_params')
+                if abs(F(frm.unit_drift_rate) - df_x / dt_x) > (df_x / dt_x) * Fr(1, 10**12):
+                    V('frame_unit_drift_rate', 'frame unit_drift_rate=%r, backend pixel drift %r' % (frm.unit_drift_rate, float(df_x / dt_x)),
+                      site='Frame.from_backend_params')
                 if abs(F(pd['df']) - abs(F(be.chan_bw)) / N) > df_x * Fr(1, 10**12) or \
                         abs(F(pd['dt']) - F(be.tbin) * N * I) > dt_x * Fr(1, 10**12):
                     V('params_vs_backend', 'params_from_backend disagrees with backend chan_bw/tbin', site='frame.params_from_backend')
